@@ -25,7 +25,9 @@ Two models, two correspondence lemmas per operator sequence:
    (logged by a set subclass), n_remove (float arithmetic on `degree`).  A disagreement only here means a heuristic
    (cost ranking, feasibility test, tie-break) changed while the bookkeeping model still agrees.
 """
+import copy as _copy
 import json
+import math
 import random as _random
 from math import isqrt
 
@@ -69,10 +71,10 @@ def gen_points(rng, n):
     return pts
 
 
-def gen_inst(rng, big=False):
-    n = rng.choice([3, 3, 4, 4, 5, 5, 6, 7] + ([8, 9] if big else []))
+def gen_inst(rng, big=False, sizes=None):
+    n = rng.choice(sizes or ([0, 1, 2, 3, 3, 4, 4, 5, 5, 6, 7] + ([8, 9] if big else [])))
     pts = gen_points(rng, n)
-    nveh = rng.choice([1, 2, 2, 3, 3])
+    nveh = rng.choice([1, 2, 2, 3, 3, 3, 4] + ([0] if rng.random() < 0.1 else []))
     customers = []
     for i in range(1, n + 1):
         tw = rng.random() < 0.5
@@ -83,6 +85,8 @@ def gen_inst(rng, big=False):
             req = 2
         elif r < 0.35:
             req = 3
+        elif r < 0.37:
+            req = 0  # treated like a single-vehicle customer by sync_violation, by neither list of sync_aware_insertion
         customers.append({"id": i, "x": pts[i][0], "y": pts[i][1], "demand": rng.randint(0, 6),
                           "tw_start": a if tw else 0, "tw_end": (a + rng.choice([0, 1, 3, 10, 30, 60])) if tw else None,
                           "service_time": rng.choice([0, 0, 1, 2, 5]), "required_vehicles": req})
@@ -91,8 +95,103 @@ def gen_inst(rng, big=False):
         caps = [rng.choice(capv) for _ in range(nveh)]
     else:
         caps = [rng.choice(capv)] * nveh
-    return {"depot": list(pts[0]), "customers": customers, "caps": caps,
-            "floats": rng.random() < 0.5}  # feed the numbers as float (4.0) or as int (4)
+    inst = {"depot": list(pts[0]), "customers": customers, "caps": caps,
+            "num": rng.choice(["int", "float", "float", "mixed"])}  # feed the numbers as int (4), float (4.0) or a mix
+    if rng.random() < 0.3:  # class L: vehicle ids are labels, not positions (also >= 257, repeated)
+        inst["veh_ids"] = [rng.choice([0, 1, 7, 255, 256, 257, 1000, 65537]) for _ in range(nveh)]
+    return inst
+
+
+def _hypot_exact(inst):
+    """Python's own float hypot gives the exact integer distance for every pair (so exact comparison is fair)."""
+    pts = [tuple(inst["depot"])] + [(c["x"], c["y"]) for c in inst["customers"]]
+    return all(_int_dist(p, q) is not None and math.hypot(float(p[0] - q[0]), float(p[1] - q[1])) == _int_dist(p, q)
+               and math.hypot(float(p[0]) - float(q[0]), float(p[1]) - float(q[1])) == _int_dist(p, q) for p in pts for q in pts)
+
+
+def gen_inst_scaled(rng, big=False):
+    """class M: a small instance with lengths/times multiplied by F and demands/capacities by G (2^31, 10^9, 2^38 ...);
+    all quantities stay exact integers below 2^52, so the implementation's float arithmetic must still be exact."""
+    for _ in range(50):
+        inst = gen_inst(rng, big, sizes=[2, 3, 4, 5, 6])
+        F = rng.choice([2**20, 2**31, 10**6, 10**9, 2**31 + 1, 2**36])
+        G = rng.choice([1, 1, 2**31, 10**9, 2**40])
+        inst["depot"] = [x * F for x in inst["depot"]]
+        for c in inst["customers"]:
+            c["x"] *= F
+            c["y"] *= F
+            c["tw_start"] *= F
+            c["service_time"] *= F
+            if c["tw_end"] is not None:
+                c["tw_end"] *= F
+            c["demand"] *= G
+        inst["caps"] = [None if cap is None else cap * G for cap in inst["caps"]]
+        inst["scale"] = [F, G]
+        if _hypot_exact(inst):
+            return inst
+    return gen_inst(rng, big)
+
+
+def weights_for(rng, inst):
+    """integer weights such that every objective stays an exact float (< 2^52) on this instance"""
+    w = gen_weights(rng)
+    F, G = inst.get("scale", [1, 1])
+    n = max(1, len(inst["customers"]))
+    span = 400 * F * n  # bound on total distance / any arrival time
+    for _ in range(8):
+        bound = (w["distance_weight"] * span + w["tw_penalty"] * span * n + w["capacity_penalty"] * 6 * G * n
+                 + w["sync_penalty"] * max(1000 * 3 * n, span) + w["unassigned_penalty"] * n + w["vehicle_weight"] * 8)
+        if bound < 2**52:
+            return w
+        for k in ("tw_penalty", "capacity_penalty", "sync_penalty", "distance_weight"):
+            w[k] = max(1, w[k] // 10)
+    return None
+
+
+def gen_inst_real(rng):
+    """float geometry (non-integral distances, decimal time windows): judged by the Python oracle with a 1e-9 tolerance,
+    not part of the Coq correspondence"""
+    inst = gen_inst(rng, False, sizes=[2, 3, 4, 5, 6, 7])
+    r2 = lambda lo, hi: round(rng.uniform(lo, hi), rng.choice([1, 2, 6]))  # noqa: E731
+    inst["depot"] = [r2(-5, 5), r2(-5, 5)]
+    for c in inst["customers"]:
+        c["x"], c["y"] = r2(-10, 10), r2(-10, 10)
+        c["demand"] = rng.choice([c["demand"], r2(0, 6)])
+        c["service_time"] = rng.choice([0.0, 0.5, 0.1, 2.5])
+        if c["tw_end"] is not None:
+            c["tw_start"] = r2(0, 20)
+            c["tw_end"] = c["tw_start"] + rng.choice([0.0, 1e-9, 0.3, 10.0, 30.0])
+    inst["caps"] = [None if cap is None else cap + rng.choice([0, 0.5]) for cap in inst["caps"]]
+    inst["real"] = True
+    inst["num"] = "asis"
+    return inst
+
+
+def gen_inst_line(n, nveh=3):
+    """class S: depot at 0, customer i at x = i (or x = 3i, y = 4i), unit demands, wide windows on every 7th customer,
+    every 50th customer needs two vehicles"""
+    customers = []
+    for i in range(1, n + 1):
+        customers.append({"id": i, "x": 3 * i, "y": 4 * i, "demand": 1, "tw_start": 5 * i if i % 7 == 0 else 0,
+                          "tw_end": 100 * n if i % 7 == 0 else None, "service_time": 1 if i % 5 == 0 else 0,
+                          "required_vehicles": 2 if i % 50 == 3 else 1})
+    return {"depot": [0, 0], "customers": customers, "caps": [n, None, n // 4][:nveh] + [None] * max(0, nveh - 3), "num": "float"}
+
+
+def gen_state0(rng, inst):
+    """a random CONSISTENT state (class A/H: hand-built through the public dataclass; also states no insertion heuristic
+    would build: overloaded vehicles, late arrivals, multi-vehicle customers on 1..required routes)"""
+    nveh = len(inst["caps"])
+    routes = [[] for _ in range(nveh)]
+    un = []
+    for c in inst["customers"]:
+        if nveh == 0 or rng.random() < 0.25:
+            un.append(c["id"])
+            continue
+        k = 1 if c["required_vehicles"] <= 1 else rng.randint(1, min(nveh, c["required_vehicles"]))
+        for v in rng.sample(range(nveh), k):
+            routes[v].insert(rng.randint(0, len(routes[v])), c["id"])
+    return {"routes": routes, "unassigned": un}
 
 
 def gen_weights(rng):
@@ -103,35 +202,136 @@ def gen_weights(rng):
             "sync_penalty": rng.choice([10000, 10, 1]), "unassigned_penalty": 100000}
 
 
-def gen_plan(rng, nops):
-    plan = [["greedy_insertion", {}]]  # _build_initial_solution
+DEGREES = [0.0, 0.01, 0.1, 0.2, 0.3, 0.3, 0.5, 0.99, 1.0, 1.5, -0.5]
+N_ROUTES = [0, 1, 1, 1, 2, 3, 5]
+REGRET_K = [1, 2, 2, 3, 4, 5, 8]
+
+
+def gen_plan(rng, nops, corners=False, first=True, small_degree=False):
+    plan = [["greedy_insertion", {}]] if first else []  # _build_initial_solution
     last_removal = False
     for _ in range(nops):
         # mostly alternate destroy / repair (as ALNS does), sometimes two of a kind in a row
         name = rng.choice(INSERTIONS if last_removal else REMOVALS) if rng.random() < 0.7 else rng.choice(OPS)
         last_removal = name in REMOVALS
         if name in ("random_removal", "worst_removal", "related_removal"):
-            params = {"degree": rng.choice([0.1, 0.2, 0.3, 0.3, 0.5, 1.0])}
+            params = {"degree": rng.choice([0.01, 0.02] if small_degree else (DEGREES if corners else [0.1, 0.2, 0.3, 0.3, 0.5, 1.0]))}
+            if corners and rng.random() < 0.15:
+                params = {}  # the default degree
         elif name == "route_removal":
-            params = {"n_routes": rng.choice([1, 1, 1, 2, 3])}
+            params = {"n_routes": rng.choice(N_ROUTES if corners else [1, 1, 1, 2, 3])}
+            if corners and rng.random() < 0.15:
+                params = {}
         elif name == "regret_insertion":
-            params = {"k": rng.choice([2, 2, 3])}
+            params = {"k": rng.choice(REGRET_K if corners else [2, 2, 3])}
+            if corners and rng.random() < 0.15:
+                params = {}
         else:
             params = {}
         plan.append([name, params])
     return plan
 
 
-def gen_seq_case(rng, big=False):
-    return {"kind": "vrp_seq", "inst": gen_inst(rng, big), "weights": gen_weights(rng), "seed": rng.randrange(10**6),
-            "plan": gen_plan(rng, 30)}
+def gen_seq_case(rng, big=False, family="base"):
+    case = {"kind": "vrp_seq", "family": family, "seed": rng.randrange(10**6)}
+    if family == "scaled":
+        inst = gen_inst_scaled(rng, big)
+    elif family == "real":
+        inst = gen_inst_real(rng)
+    else:
+        inst = gen_inst(rng, big)
+    case["inst"] = inst
+    case["weights"] = weights_for(rng, inst) or dict(DEFAULT_W)
+    case["plan"] = gen_plan(rng, 30, corners=family in ("corners", "hand", "state0"))
+    if family == "hand":
+        # the state is built directly with the VRPState dataclass (no precomputed matrix) at the start and / or re-built
+        # from its public fields before some operators; `twin`: the same run from from_problem must agree step by step
+        case["start"] = rng.choice(["hand", "hand", "from_problem"])
+        case["rebuild_at"] = sorted(rng.sample(range(1, 31), rng.choice([0, 1, 3, 8]))) if case["start"] == "hand" \
+            else sorted(rng.sample(range(1, 31), rng.choice([1, 3, 8])))
+        case["twin"] = True
+    elif family == "state0":
+        case["start"] = "state0"
+        case["state0"] = gen_state0(rng, inst)
+        case["plan"] = gen_plan(rng, 20, corners=True, first=False)
+        case["rebuild_at"] = sorted(rng.sample(range(1, 20), rng.choice([0, 0, 2])))
+    if rng.random() < 0.2:
+        case["twice"] = True
+    return case
 
 
-def gen_solve_case(rng, big=False):
-    w = gen_weights(rng)
-    return {"kind": "vrp_solve", "inst": gen_inst(rng, big), "weights": w, "seed": rng.randrange(10**6),
-            "max_iter": rng.choice([0, 1, 3, 10, 25, 25, 40, 40] + ([120] if big else [])),
-            "max_no_improve": rng.choice([3, 10, 500, 500])}
+def gen_big_seq_case(rng, n):
+    """class S / L: n customers on a line, state built by hand with block routes and FRESH int objects for every id
+    (ids >= 257 are equal but not identical across customers / routes / unassigned); operators with small degree"""
+    inst = gen_inst_line(n)
+    ids = list(range(1, n + 1))
+    un = sorted(rng.sample(ids, min(n, 6)))
+    rest = [i for i in ids if i not in un]
+    third = (len(rest) + 2) // 3
+    routes = [rest[:third], rest[third:2 * third][::-1], rest[2 * third:]]
+    for c in inst["customers"]:  # a multi-vehicle customer sits on two routes
+        if c["required_vehicles"] == 2 and c["id"] in routes[0]:
+            routes[1].insert(len(routes[1]) // 2, c["id"])
+    # route_removal frees a third of the customers: re-inserting ~100 customers is minutes of _insertion_cost calls, so it
+    # comes last (after it only the oracle looks at the state)
+    plan = [p for p in gen_plan(rng, 10 if n > 100 else 16, first=False, small_degree=True) if p[0] != "route_removal"]
+    plan.append(["route_removal", {"n_routes": 1}])
+    return {"kind": "vrp_seq", "family": f"size{n}", "inst": inst, "weights": dict(DEFAULT_W), "seed": rng.randrange(10**6),
+            "start": "state0", "state0": {"routes": routes, "unassigned": un}, "plan": plan, "fresh_ids": True,
+            "coq": n <= 20, "rebuild_at": [len(plan) // 2]}
+
+
+def gen_solve_case(rng, big=False, family="base"):
+    if family == "scaled":
+        inst = gen_inst_scaled(rng, big)
+    elif family == "real":
+        inst = gen_inst_real(rng)
+    else:
+        inst = gen_inst(rng, big)
+    w = weights_for(rng, inst) or dict(DEFAULT_W)
+    case = {"kind": "vrp_solve", "family": family, "inst": inst, "weights": w, "seed": rng.randrange(10**6),
+            "max_iter": rng.choice([0, 1, 2, 3, 10, 25, 25, 40, 40] + ([120] if big else [])),
+            "max_no_improve": rng.choice([0, 1, 2, 3, 10, 500, 500, 500])}
+    if family == "forms":
+        # class I / L: customers as Customer objects or tuples of every accepted length, in a list or a tuple; vehicles as an
+        # int (+ vehicle_capacity), a list or a tuple of Vehicle; depot as tuple or list
+        for c in inst["customers"]:
+            r = rng.random()
+            if r < 0.3:
+                c["required_vehicles"] = 1
+            if r < 0.2:
+                c["service_time"] = 0
+            if r < 0.1:
+                c["tw_end"] = None
+        case["cust_forms"] = [rng.choice(["obj", "min", "min", "tuple8"]) for _ in inst["customers"]]
+        case["container"] = rng.choice(["list", "tuple"])
+        if len(set(map(str, inst["caps"]))) <= 1 and "veh_ids" not in inst and rng.random() < 0.6:
+            case["vehicles_form"] = "int"
+        else:
+            case["vehicles_form"] = rng.choice(["list", "tuple"])
+        case["depot_form"] = rng.choice(["tuple", "list"])
+    if family == "progress":
+        case["on_progress"] = {"k": rng.choice([1, 2, 3, 5, 8]), "interval": rng.choice([0, 1, 1, 2, 3]),
+                               "ret": rng.choice(["true", "true", "true", "none"])}
+        case["max_iter"] = rng.choice([10, 25])
+        case["max_no_improve"] = 500
+    if rng.random() < 0.25:
+        case["twice"] = True
+    return case
+
+
+def gen_sweep_solves(rng, hi):
+    """class O: max_iter = 0 .. hi on one instance, plus the alns segment boundary (weights are updated every 100 iterations)"""
+    inst = gen_inst(rng, False, sizes=[4, 5])
+    w = weights_for(rng, inst) or dict(DEFAULT_W)
+    seed = rng.randrange(10**6)
+    out = [{"kind": "vrp_solve", "family": "sweep", "inst": inst, "weights": w, "seed": seed, "max_iter": k, "max_no_improve": 500}
+           for k in range(hi + 1)]
+    tiny = gen_inst(rng, False, sizes=[2, 3])
+    for k in (99, 100, 101, 205):
+        out.append({"kind": "vrp_solve", "family": "sweep", "inst": tiny, "weights": dict(DEFAULT_W), "seed": seed + k,
+                    "max_iter": k, "max_no_improve": 10**6})
+    return out
 
 
 # the witnesses of the property text / DESIGN.md (both defects are fixed in /repo: 3c6011c, 54303b2)
@@ -140,7 +340,7 @@ def _wit_inst(demand1, cap):
         {"id": 1, "x": 1, "y": 0, "demand": demand1, "tw_start": 0, "tw_end": None, "service_time": 0, "required_vehicles": 2},
         {"id": 2, "x": 2, "y": 0, "demand": 1, "tw_start": 0, "tw_end": None, "service_time": 0, "required_vehicles": 1},
         {"id": 3, "x": 3, "y": 0, "demand": 1, "tw_start": 0, "tw_end": None, "service_time": 0, "required_vehicles": 1}],
-        "caps": [cap, cap], "floats": False}
+        "caps": [cap, cap], "num": "int"}
 
 
 FIXED = [
@@ -159,25 +359,57 @@ FIXED = [
 
 
 # ---------------------------------------------------------------- instance -> implementation objects
-def _num(x, floats):
-    return float(x) if floats else x
+def _num(x, mode, salt=0):
+    if mode == "float" or mode is True:
+        return float(x)
+    if mode == "mixed":
+        return float(x) if salt % 2 else x
+    return x
 
 
-def build(vrp, inst):
-    f = inst.get("floats", False)
+def _fresh(i):
+    return int(str(i))  # a new int object (not the cached small int / the literal) for i >= 257
+
+
+def build(vrp, inst, fresh=False):
+    f = inst.get("num", "float" if inst.get("floats") else "int")
     inf = float("inf")
-    custs = [vrp.Customer(0, _num(inst["depot"][0], f), _num(inst["depot"][1], f))]
-    for c in inst["customers"]:
-        custs.append(vrp.Customer(c["id"], _num(c["x"], f), _num(c["y"], f), _num(c["demand"], f), _num(c["tw_start"], f),
-                                  inf if c["tw_end"] is None else _num(c["tw_end"], f), _num(c["service_time"], f),
-                                  c["required_vehicles"]))
-    vehs = [vrp.Vehicle(i, inf if cap is None else _num(cap, f)) for i, cap in enumerate(inst["caps"])]
+    fid = _fresh if fresh else (lambda i: i)
+    custs = [vrp.Customer(0, _num(inst["depot"][0], f), _num(inst["depot"][1], f, 1))]
+    for k, c in enumerate(inst["customers"]):
+        custs.append(vrp.Customer(fid(c["id"]), _num(c["x"], f, k), _num(c["y"], f, k + 1), _num(c["demand"], f, k + 2),
+                                  _num(c["tw_start"], f, k + 3), inf if c["tw_end"] is None else _num(c["tw_end"], f, k + 4),
+                                  _num(c["service_time"], f, k + 5), c["required_vehicles"]))
+    ids = inst.get("veh_ids") or list(range(len(inst["caps"])))
+    vehs = [vrp.Vehicle(fid(ids[i]), inf if cap is None else _num(cap, f, i)) for i, cap in enumerate(inst["caps"])]
     return custs, vehs
 
 
+_DM_CACHE = {}
+
+
 def dist_matrix(inst):
-    pts = [tuple(inst["depot"])] + [(c["x"], c["y"]) for c in inst["customers"]]
-    return [[_int_dist(p, q) for q in pts] for p in pts]
+    key = (tuple(inst["depot"]), tuple((c["x"], c["y"]) for c in inst["customers"]), bool(inst.get("real")))
+    dm = _DM_CACHE.get(key)
+    if dm is None:
+        pts = [tuple(inst["depot"])] + [(c["x"], c["y"]) for c in inst["customers"]]
+        if inst.get("real"):
+            dm = [[math.dist(p, q) for q in pts] for p in pts]
+        else:
+            dm = [[_int_dist(p, q) for q in pts] for p in pts]
+        if len(_DM_CACHE) > 500:
+            _DM_CACHE.clear()
+        _DM_CACHE[key] = dm
+    return dm
+
+
+def _eq(a, b, real):
+    if not real:
+        return a == b and not isinstance(a, bool)
+    try:
+        return abs(a - b) <= 1e-9 * max(1.0, abs(a), abs(b))
+    except TypeError:
+        return False
 
 
 def canon_num(x):
@@ -198,7 +430,79 @@ class _Sink:
     ins = []    # (customer, vehicle, pos, route length before) per routes[v].insert
     rng = []    # ("sample"|"choice"|"shuffle"|"random", answer)
     iters = []  # iteration orders of the set `unassigned`, one per `for ... in state.unassigned` / list(...)
+    ic = []     # _insertion_cost calls: (cid, feasible?, fallback branch?, stale arrival list?, capacity reject?)
     depth = 0
+
+
+def ic_wrapper(orig):
+    """logs every _insertion_cost call (for the event histogram only; the result is passed through)"""
+
+    def w(state, v, pos, cid):
+        r = orig(state, v, pos, cid)
+        try:
+            route, arr = state.routes[v], state.arrival_times[v]
+            cap = r is None and state.route_load(v) + state.customers[cid].demand > state.vehicles[v].capacity
+            _Sink.ic.append((cid, r is not None, bool(route) and pos > 0 and pos - 1 >= len(arr), len(arr) != len(route), cap))
+        except Exception:  # noqa: BLE001
+            pass
+        return r
+
+    return w
+
+
+def op_events(name, rec, args, customers):
+    """rare internal events of one operator call, read off the logs (class H)"""
+    ev = set()
+    pre, post = rec["pre"], rec["post"]
+    diff = set(post["unassigned"]) - set(pre["unassigned"])
+    n_assigned = sum(len(r) for r in pre["routes"])
+    if any(x[2] for x in _Sink.ic):
+        ev.add("insertion_cost: arrival re-derived (arrival list shorter than pos)")
+    if any(x[3] for x in _Sink.ic):
+        ev.add("insertion_cost: reads stale arrival times")
+    if any(x[4] for x in _Sink.ic):
+        ev.add("insertion_cost: capacity reject")
+    if any((not x[1]) and not x[4] for x in _Sink.ic):
+        ev.add("insertion_cost: time-window reject")
+    if name in ("regret_insertion", "sync_aware_insertion"):
+        k = args[0] if (name == "regret_insertion" and args) else 2
+        run_c, run_f = None, 0
+        for x in list(_Sink.ic) + [(None, False, False, False, False)]:
+            if x[0] != run_c:
+                if run_c is not None and 0 < run_f < k and (name == "regret_insertion" or customers[run_c].required_vehicles == 1):
+                    ev.add("regret: fewer than k options (regret 10000)")
+                if run_c is not None and run_f == 0 and customers[run_c].required_vehicles <= 1:
+                    ev.add("insertion: customer without feasible position")
+                run_c, run_f = x[0], 0
+            run_f += 1 if x[1] else 0
+    samples = [r for kk, r in _Sink.rng if kk == "sample"]
+    choices = [r for kk, r in _Sink.rng if kk == "choice"]
+    randoms = [r for kk, r in _Sink.rng if kk == "random"]
+    if name == "sync_removal" and not choices and samples:
+        ev.add("sync_removal: falls back to random_removal")
+    if name == "sync_removal" and choices:
+        ev.add("sync_removal: target + neighbours")
+    if name == "worst_removal" and len(randoms) > len(diff):
+        ev.add("worst_removal: pops a customer already selected (visited by two vehicles)")
+    if name == "related_removal" and choices:
+        deg = args[0] if args else 0.2
+        if len(diff) < max(1, int(n_assigned * deg)):
+            ev.add("related_removal: runs out of candidates")
+    if name == "route_removal" and samples and (args[0] if args else 1) > len(samples[0]):
+        ev.add("route_removal: n_routes > non-empty routes")
+    if name in REMOVALS and n_assigned == 0:
+        ev.add("removal: nothing assigned")
+    if name in REMOVALS and any(sum(1 for r in pre["routes"] if c in r) > 1 for c in diff):
+        ev.add("removal: strips a customer from two routes")
+    multi = [c for c in range(1, len(customers)) if customers[c].required_vehicles > 1]
+    if name == "sync_aware_insertion":
+        if any(c in post["unassigned"] for c in multi):
+            ev.add("sync_aware_insertion: multi-vehicle customer stays unassigned")
+        if any(c in pre["unassigned"] and sum(1 for r in post["routes"] if c in r) >= 2 for c in multi):
+            ev.add("sync_aware_insertion: multi-vehicle customer placed on all its vehicles")
+    if name in ("greedy_insertion", "regret_insertion") and any(c in pre["unassigned"] and c not in post["unassigned"] for c in multi):
+        ev.add("greedy/regret: multi-vehicle customer placed on one route")
+    return ev
 
 
 class RecRandom:
@@ -271,13 +575,16 @@ def rec_state_class(vrp):
 
 def call_op(vrp, orig, name, st, rng, args):
     """Run one exported operator, return (new_state, record)."""
-    _Sink.ins, _Sink.rng, _Sink.iters = [], [], []
+    _Sink.ins, _Sink.rng, _Sink.iters, _Sink.ic = [], [], [], []
     pre = snapshot(st)
     new = orig(st, rng, *args)
     post = snapshot(new)
     rec = {"op": name, "args": list(args), "pre": pre, "post": post, "oracle": derive(name, pre, post, st.customers),
            "foracle": derive_f(name, pre, post, args)}
-    _Sink.ins, _Sink.rng, _Sink.iters = [], [], []
+    rec["events"] = sorted(op_events(name, rec, args, st.customers))
+    if snapshot(st) != pre:  # class A: the caller's state (ALNS keeps it as current / best) must not change
+        rec["input_modified"] = snapshot(st)
+    _Sink.ins, _Sink.rng, _Sink.iters, _Sink.ic = [], [], [], []
     return new, rec
 
 
@@ -362,63 +669,219 @@ def wkw(w):
     return {k: w[k] for k in DEFAULT_W}
 
 
+def hand_state(RecState, custs, vehs, snap=None, arrivals=None, fresh=False):
+    """A VRPState built directly with the public dataclass: no precomputed distance matrix (`_dist` stays None),
+    default sync_assignments, fresh containers."""
+    fid = _fresh if fresh else (lambda i: i)
+    nv = len(vehs)
+    if snap is None:
+        return RecState(customers=custs, vehicles=vehs, routes=[[] for _ in range(nv)], arrival_times=[[] for _ in range(nv)],
+                        unassigned={fid(c.id) for c in custs[1:]})
+    return RecState(customers=custs, vehicles=vehs, routes=[[fid(c) for c in r] for r in snap["routes"]],
+                    arrival_times=[[float(t) for t in a] for a in arrivals], unassigned={fid(c) for c in snap["unassigned"]})
+
+
+def state_events(inst, snap, parts):
+    ev = set()
+    if parts["late"] > 0:
+        ev.add("state: late arrivals")
+    if parts["overload"] > 0:
+        ev.add("state: overloaded vehicle")
+    if parts["sync_missing"]:
+        ev.add("state: multi-vehicle customer misses vehicles")
+    if parts["sync_spread"]:
+        ev.add("state: multi-vehicle customer visited at different times")
+    cs = {c["id"]: c for c in inst["customers"]}
+    for r, a in zip(snap["routes"], snap["arrivals"]):
+        for c, t in zip(r, a):
+            if cs[c]["tw_end"] is not None and _eq(t, cs[c]["tw_end"], inst.get("real")):
+                ev.add("state: arrival exactly at tw_end")
+    return ev
+
+
 def run_seq(case):
-    """Operator sequence from the solver's initial state.  Stops at the first step the oracle rejects (a later
-    operator would run on an inconsistent state, which is outside the contract)."""
+    """Operator sequence from the solver's initial state (or a hand-built one).  Stops at the first step the oracle
+    rejects (a later operator would run on an inconsistent state, which is outside the contract)."""
     import importlib
 
     vrp = importlib.import_module("solvor.vrp")
+    saved_ic = vrp._insertion_cost if hasattr(vrp, "_insertion_cost") else None
+    if saved_ic is not None:
+        vrp._insertion_cost = ic_wrapper(saved_ic)
+    try:
+        out = _run_seq(vrp, case)
+    finally:
+        if saved_ic is not None:
+            vrp._insertion_cost = saved_ic
+    if out["bad"] or not out["steps"]:
+        return out
+    posts = [s["post"] for s in out["steps"]]
+    if case.get("twice"):  # class A: the answer does not depend on earlier calls
+        o2 = _run_seq(vrp, case)
+        if [s["post"] for s in o2["steps"]] != posts:
+            out["bad"] = "the same operator sequence on the same input (same rng seed) gave different states the second time"
+    if case.get("twin") and not out["bad"]:  # hand-built and from_problem states are the same states
+        o2 = _run_seq(vrp, {**case, "start": "from_problem", "rebuild_at": []})
+        p2 = [s["post"] for s in o2["steps"]]
+        if p2 != posts:
+            k = next((i for i, (a, b) in enumerate(zip(posts, p2)) if a != b), min(len(posts), len(p2)))
+            out["bad"] = (f"step {k} {case['plan'][k][0]}: a state built with the VRPState dataclass behaves differently from the "
+                          f"from_problem state with the same fields: {posts[k] if k < len(posts) else None} vs {p2[k] if k < len(p2) else None}")
+    return out
+
+
+def _run_seq(vrp, case):
     inst = case["inst"]
-    out = {"steps": [], "bad": None, "init": None, "dist_ok": True}
+    real = inst.get("real")
+    out = {"steps": [], "bad": None, "init": None, "events": set()}
     RecState = rec_state_class(vrp)
-    custs, vehs = build(vrp, inst)
-    res = guarded(RecState.from_problem, custs, vehs, timeout=5)
+    fresh = case.get("fresh_ids", False)
+    custs, vehs = build(vrp, inst, fresh)
+    start = case.get("start", "from_problem")
+    if start == "from_problem":
+        res = guarded(RecState.from_problem, custs, vehs, timeout=5)
+    elif start == "hand":
+        res = guarded(hand_state, RecState, custs, vehs, timeout=5)
+    else:
+        s0 = case["state0"]
+        res = guarded(hand_state, RecState, custs, vehs, s0, [arrivals_from_scratch(inst, r) for r in s0["routes"]], fresh, timeout=5)
     if res[0] != "ok":
-        out["bad"] = f"VRPState.from_problem: {res}"
+        out["bad"] = f"building the initial VRPState ({start}): {res}"
         return out
     st = res[1]
-    dm = dist_matrix(inst)
-    out["dist_ok"] = st._dist is not None and all(canon_num(st._dist[i][j]) == dm[i][j] and canon_num(st.dist(i, j)) == dm[i][j]
-                                                  for i in range(len(dm)) for j in range(len(dm)))
     out["init"] = snapshot(st)
     errs = check_state(inst, out["init"])
     if errs:
-        out["bad"] = f"VRPState.from_problem: {errs[0]}"
+        out["bad"] = f"initial VRPState ({start}): {errs[0]}"
         return out
+    dm = dist_matrix(inst)
+    n = len(dm)
+    pairs = [(i, j) for i in range(n) for j in range(n)] if n <= 12 else [((7 * k) % n, (13 * k + 1) % n) for k in range(150)]
+    dist_bad = None
+    for i, j in pairs:
+        r = guarded(st.dist, i, j, timeout=5)
+        if r[0] != "ok" or not _eq(canon_num(r[1]), dm[i][j], real):
+            dist_bad = f"VRPState.dist({i}, {j}) = {r[1:]} on a state built by {start}, the Euclidean distance of the two locations is {dm[i][j]}"
+            break
+    history = [(st, out["init"])]
     rng = RecRandom(case["seed"])
+    rebuild = set(case.get("rebuild_at") or [])
     for k, (name, params) in enumerate(case["plan"]):
+        if k in rebuild:  # class A: re-build the state from its public fields with the dataclass constructor
+            st = hand_state(RecState, custs, vehs, snapshot(st), [list(a) for a in st.arrival_times], fresh)
+            history.append((st, snapshot(st)))
         orig = getattr(vrp, name)
-        res = guarded(call_op, vrp, orig, name, st, rng, _args(name, params), timeout=5)
+        res = guarded(call_op, vrp, orig, name, st, rng, _args(name, params), timeout=20 if len(inst["customers"]) > 50 else 5)
         if res[0] != "ok":
             out["steps"].append({"op": name, "args": list(_args(name, params)), "pre": snapshot(st), "post": None, "oracle": None})
             out["bad"] = f"step {k} {name}{tuple(_args(name, params))}: implementation {res[0]} {res[1:]}"
             return out
         st, rec = res[1]
+        history.append((st, rec["post"]))
         r2 = guarded(vrp.vrp_objective, st, timeout=5, **wkw(case["weights"]))
         rec["obj"] = canon_num(r2[1]) if r2[0] == "ok" else None
         out["steps"].append(rec)
+        where = f"step {k} after {name}{tuple(_args(name, params))} on routes {_short(rec['pre']['routes'])} unassigned {_short(rec['pre']['unassigned'])}"
         errs = check_state(inst, rec["post"])
+        if not errs and "input_modified" in rec:
+            errs = [f"the operator modified the state it was given: routes {_short(rec['input_modified']['routes'])} unassigned "
+                    f"{_short(rec['input_modified']['unassigned'])} arrival_times {_short(rec['input_modified']['arrivals'])}"]
         if not errs and r2[0] != "ok":
             errs = [f"vrp_objective: {r2}"]
         if not errs:
-            want = objective_formula(inst, case["weights"], rec["post"])
-            if rec["obj"] != want:
+            parts = objective_parts(inst, rec["post"])
+            want = objective_formula(inst, case["weights"], rec["post"], parts)
+            if not _eq(rec["obj"], want, real):
                 errs = [f"vrp_objective(state) = {rec['obj']} but the documented weighted sum of the state is {want}"]
+            else:
+                r3 = guarded(vrp.vrp_objective, st.copy(), timeout=5, **wkw(case["weights"]))
+                if r3[0] != "ok" or canon_num(r3[1]) != rec["obj"]:
+                    errs = [f"vrp_objective(state.copy()) = {r3[1:]} but vrp_objective(state) = {rec['obj']}"]
+            if not errs:
+                m = methods_check(inst, st, rec["post"], parts)
+                if m:
+                    errs = [m]
+            rec["events"] = sorted(set(rec["events"]) | state_events(inst, rec["post"], parts))
+            out["events"].update(rec["events"])
         if errs:
-            out["bad"] = f"step {k} after {name}{tuple(_args(name, params))} on routes {rec['pre']['routes']} unassigned {rec['pre']['unassigned']}: {errs[0]}"
+            out["bad"] = f"{where}: {errs[0]}"
             return out
+    for obj, snap in history:  # no state handed out earlier was changed by a later operator
+        if snapshot(obj) != snap:
+            out["bad"] = (f"a state returned earlier (routes {_short(snap['routes'])} unassigned {_short(snap['unassigned'])}) changed "
+                          f"while later operators ran: now routes {_short(snapshot(obj)['routes'])} arrival_times {_short(snapshot(obj)['arrivals'])}")
+            return out
+    if dist_bad:
+        out["bad"] = dist_bad
     return out
+
+
+def _short(x, n=14):
+    s = json.dumps(x)
+    return s if len(s) < 300 else s[:300] + " ..."
+
+
+def _min_len(c):
+    if c["required_vehicles"] != 1:
+        return 8
+    if c["service_time"] != 0:
+        return 7
+    if c["tw_end"] is not None:
+        return 6
+    if c["tw_start"] != 0:
+        return 5
+    return 4 if c["demand"] != 0 else 3
+
+
+def solve_args(vrp, case, custs, vehs):
+    """the call forms of solve_vrptw (class I / L): Customer objects or tuples (id, x, y[, demand[, tw_start[, tw_end[,
+    service_time[, required_vehicles]]]]]), list or tuple; vehicles as int (+ vehicle_capacity), list or tuple"""
+    inst = case["inst"]
+    forms = case.get("cust_forms") or ["obj"] * len(inst["customers"])
+    cl = []
+    for c, ic, form in zip(custs[1:], inst["customers"], forms):
+        if form == "obj":
+            cl.append(c)
+        else:
+            full = (c.id, c.x, c.y, c.demand, c.tw_start, c.tw_end, c.service_time, c.required_vehicles)
+            cl.append(full if form == "tuple8" else full[:_min_len(ic)])
+    customers = tuple(cl) if case.get("container") == "tuple" else cl
+    kw = {}
+    vf = case.get("vehicles_form", "list")
+    if vf == "int":
+        vehicles = len(vehs)
+        if vehs and vehs[0].capacity != float("inf"):
+            kw["vehicle_capacity"] = vehs[0].capacity
+    else:
+        vehicles = tuple(vehs) if vf == "tuple" else list(vehs)
+    depot = (custs[0].x, custs[0].y)
+    if case.get("depot_form") == "list":
+        depot = list(depot)
+    return customers, vehicles, depot, kw
 
 
 def run_solve(case):
     """solve_vrptw end to end with the exported operators, VRPState and Random wrapped for recording."""
+    out = _run_solve(case)
+    if case.get("twice") and not out["bad"] and out["result"]:
+        # class A: the same call again (after an unrelated solve in between) gives the same answer
+        other = {**case, "inst": _wit_inst(1, 10), "cust_forms": None, "vehicles_form": "list", "max_iter": 5, "twice": False}
+        _run_solve(other)
+        o2 = _run_solve(case)
+        if o2["result"] != out["result"]:
+            out["bad"] = f"solve_vrptw: the same call gave {out['result']} the first time and {o2['result']} after another solve in between"
+    return out
+
+
+def _run_solve(case):
     import importlib
 
     lns = importlib.import_module("solvor.lns")  # `solvor.lns` the attribute is the function lns
     vrp = importlib.import_module("solvor.vrp")
 
     inst = case["inst"]
-    out = {"bad": None, "records": [], "result": None, "acc": [], "iters": None}
+    real = inst.get("real")
+    out = {"bad": None, "records": [], "result": None, "acc": [], "iters": None, "events": set()}
     RecState = rec_state_class(vrp)
     custs, vehs = build(vrp, inst)
     records, keep = [], []
@@ -442,24 +905,43 @@ def run_solve(case):
 
         return w
 
-    saved = {"VRPState": vrp.VRPState, "vrpRandom": vrp.Random, "lnsRandom": lns.Random}
+    calls = []
+    kw = {}
+    op = case.get("on_progress")
+    if op:
+        def cb(p):
+            calls.append((p.iteration, canon_num(p.objective), None if p.best is None else canon_num(p.best)))
+            if p.iteration >= op["k"]:
+                return True if op.get("ret", "true") == "true" else None
+            return False if len(calls) % 2 else None
+
+        kw["on_progress"] = cb
+        kw["progress_interval"] = op["interval"]
+    customers, vehicles, depot, kw2 = solve_args(vrp, case, custs, vehs)
+    kw.update(kw2)
+    before = (_copy.deepcopy(customers), _copy.deepcopy(vehicles), _copy.deepcopy(depot))
+    saved = {"VRPState": vrp.VRPState, "vrpRandom": vrp.Random, "lnsRandom": lns.Random, "ic": getattr(vrp, "_insertion_cost", None)}
     try:
         for name in OPS:
             setattr(vrp, name, wrap(name))
         vrp.VRPState = RecState
         vrp.Random = RecRandom
         lns.Random = RecRandom
+        if saved["ic"] is not None:
+            vrp._insertion_cost = ic_wrapper(saved["ic"])
         w = case["weights"]
-        res = guarded(vrp.solve_vrptw, custs[1:], vehs, (custs[0].x, custs[0].y),
+        res = guarded(vrp.solve_vrptw, customers, vehicles, depot,
                       distance_weight=w["distance_weight"], vehicle_weight=w["vehicle_weight"], tw_penalty=w["tw_penalty"],
                       capacity_penalty=w["capacity_penalty"], sync_penalty=w["sync_penalty"],
-                      max_iter=case["max_iter"], max_no_improve=case["max_no_improve"], seed=case["seed"], timeout=30)
+                      max_iter=case["max_iter"], max_no_improve=case["max_no_improve"], seed=case["seed"], timeout=30, **kw)
     finally:
         for name in OPS:
             setattr(vrp, name, origs[name])
         vrp.VRPState = saved["VRPState"]
         vrp.Random = saved["vrpRandom"]
         lns.Random = saved["lnsRandom"]
+        if saved["ic"] is not None:
+            vrp._insertion_cost = saved["ic"]
         _Sink.depth = 0
     out["records"] = [{k: v for k, v in r.items() if k not in ("pre_id", "post_id")} for r in records]
     if res[0] != "ok":
@@ -471,6 +953,10 @@ def run_solve(case):
         out["bad"] = f"solve_vrptw: solution is {type(sol).__name__}"
         return out
     out["result"] = {"state": snapshot(sol), "objective": canon_num(r.objective), "status": r.status.name, "iterations": r.iterations}
+    out["progress_calls"] = calls
+    if (customers, vehicles, depot) != before:
+        out["bad"] = "solve_vrptw modified its arguments (customers / vehicles / depot)"
+        return out
     # accepted? = the next destroy operator was handed this iteration's candidate
     n_it = (len(records) - 1) // 2
     acc = []
@@ -482,16 +968,56 @@ def run_solve(case):
     out["shape_ok"] = len(records) >= 1 and len(records) % 2 == 1 and records[0]["op"] == "greedy_insertion" and \
         all(records[1 + 2 * i]["op"] in REMOVALS and records[2 + 2 * i]["op"] in INSERTIONS for i in range(n_it))
     # every state the search went through obeys the contract, and the result is honestly scored
+    objs = []
     for k, rec in enumerate(out["records"]):
         errs = check_state(inst, rec["post"])
+        if not errs and "input_modified" in rec:
+            errs = [f"the operator modified the state it was given (the search keeps it as current / best): now routes "
+                    f"{_short(rec['input_modified']['routes'])} unassigned {_short(rec['input_modified']['unassigned'])}"]
         if errs:
             out["bad"] = f"solve_vrptw: after operator call {k} ({rec['op']}) on routes {rec['pre']['routes']} unassigned {rec['pre']['unassigned']}: {errs[0]}"
             return out
+        out["events"].update(rec.get("events", []))
+        objs.append(objective_formula(inst, w, rec["post"]))
     errs = check_state(inst, out["result"]["state"])
     if not errs:
         want = objective_formula(inst, w, out["result"]["state"])
-        if out["result"]["objective"] != want:
+        if not _eq(out["result"]["objective"], want, real):
             errs = [f"objective {out['result']['objective']} but the documented weighted sum of the returned state is {want}"]
+    if not errs and out["shape_ok"] and objs:
+        cands = [objs[0]] + [objs[2 + 2 * i] for i in range(n_it)]
+        # events of the ALNS loop (class H)
+        cur = best = cands[0]
+        for i in range(n_it):
+            co = cands[1 + i]
+            if co < best:
+                out["events"].add("alns: new best")
+                best = cur = co
+            elif co < cur:
+                out["events"].add("alns: better than current, not best")
+                cur = co
+            elif acc[i]:
+                out["events"].add("alns: worse candidate accepted" if co > cur else "alns: equal candidate accepted")
+                cur = co
+            elif i + 1 < n_it:
+                out["events"].add("alns: candidate rejected")
+        if n_it >= 100:
+            out["events"].add("alns: operator weights updated (iteration 100)")
+        if op is None and n_it < case["max_iter"]:
+            out["events"].add("alns: stops on max_no_improve")
+    if not errs and op is not None:
+        # on_progress: called every `interval` iterations (never when interval is 0); a true answer stops the search
+        it = out["result"]["iterations"]
+        want_calls = [i for i in range(1, it + 1) if op["interval"] > 0 and i % op["interval"] == 0]
+        if [c[0] for c in calls] != want_calls:
+            errs = [f"on_progress called at iterations {[c[0] for c in calls]}, expected {want_calls} (interval {op['interval']}, {it} iterations)"]
+        stop_ret = op.get("ret", "true") == "true"
+        if not errs and calls and calls[-1][0] >= op["k"] and stop_ret and it != calls[-1][0]:
+            errs = [f"on_progress returned {stop_ret!r} at iteration {calls[-1][0]} but the search ran {it} iterations"]
+        if not errs and calls and stop_ret and calls[-1][0] >= op["k"]:
+            out["events"].add("alns: stopped by on_progress")
+        if not errs and n_it != it:
+            errs = [f"{it} iterations reported, {n_it} (destroy, repair) pairs run"]
     if errs:
         out["bad"] = f"solve_vrptw result: {errs[0]}"
     return out
@@ -543,18 +1069,18 @@ def check_state(inst, snap):
                 errs.append(f"customer {cid} is {r.count(cid)} times on route {v}")
         if cs[cid]["required_vehicles"] <= 1 and len(on) > 1:
             errs.append(f"single-vehicle customer {cid} is on routes {on}")
+    real = inst.get("real")
     for v, r in enumerate(routes):
         want = arrivals_from_scratch(inst, r)
-        if arr[v] != want:
-            errs.append(f"arrival_times[{v}] = {arr[v]} but route {r} gives {want}")
+        if len(arr[v]) != len(want) or not all(_eq(a, b, real) for a, b in zip(arr[v], want)):
+            errs.append(f"arrival_times[{v}] = {arr[v][:12]} but route {r[:12]} (travel, waiting, service from the coordinates) gives {want[:12]}")
     return errs
 
 
-def objective_formula(inst, w, snap):
-    """distance_weight * total distance + vehicle_weight * vehicles used + tw_penalty * total lateness
-    + capacity_penalty * total overload + sync_penalty * sync violation + unassigned_penalty * #unassigned,
-    sync violation of a multi-vehicle customer = 1000 per missing vehicle, else spread of its arrival times.
-    Everything is recomputed from the routes (arrival times from scratch)."""
+def objective_parts(inst, snap):
+    """total distance, vehicles used, total lateness, total overload, sync violation (1000 per missing vehicle of a
+    multi-vehicle customer, else the spread of its arrival times) - everything recomputed from the routes and the
+    coordinates (arrival times from scratch)."""
     dm = dist_matrix(inst)
     cs = {c["id"]: c for c in inst["customers"]}
     routes = snap["routes"]
@@ -575,6 +1101,7 @@ def objective_formula(inst, w, snap):
         if cap is not None and load > cap:
             overload += load - cap
     sync = 0
+    missing = spread = False
     for cid, c in cs.items():
         req = c["required_vehicles"]
         if req <= 1:
@@ -582,10 +1109,37 @@ def objective_formula(inst, w, snap):
         times = [a[r.index(cid)] for r, a in zip(routes, arr) if cid in r]
         if len(times) < req:
             sync += (req - len(times)) * 1000
+            missing = True
         elif len(times) > 1:
             sync += max(times) - min(times)
-    return (w["distance_weight"] * dist + w["vehicle_weight"] * used + w["tw_penalty"] * late + w["capacity_penalty"] * overload
-            + w["sync_penalty"] * sync + w["unassigned_penalty"] * len(snap["unassigned"]))
+            spread = spread or max(times) != min(times)
+    return {"dist": dist, "used": used, "late": late, "overload": overload, "sync": sync, "sync_missing": missing, "sync_spread": spread}
+
+
+def objective_formula(inst, w, snap, parts=None):
+    """distance_weight * total distance + vehicle_weight * vehicles used + tw_penalty * total lateness
+    + capacity_penalty * total overload + sync_penalty * sync violation + unassigned_penalty * #unassigned"""
+    p = parts or objective_parts(inst, snap)
+    return (w["distance_weight"] * p["dist"] + w["vehicle_weight"] * p["used"] + w["tw_penalty"] * p["late"]
+            + w["capacity_penalty"] * p["overload"] + w["sync_penalty"] * p["sync"] + w["unassigned_penalty"] * len(snap["unassigned"]))
+
+
+def methods_check(inst, st, snap, parts):
+    """the public scoring methods of VRPState on this state against the oracle's parts"""
+    real = inst.get("real")
+    for name, want in (("total_distance", parts["dist"]), ("vehicles_used", parts["used"]), ("time_window_violation", parts["late"]),
+                       ("capacity_violation", parts["overload"]), ("sync_violation", parts["sync"])):
+        r = guarded(getattr(st, name), timeout=5)
+        if r[0] != "ok":
+            return f"VRPState.{name}(): {r}"
+        if not _eq(canon_num(r[1]), want, real):
+            return f"VRPState.{name}() = {r[1]} but the state has {want}"
+    r = guarded(st.is_feasible, timeout=5)
+    feas = not snap["unassigned"] and (parts["late"] < 1e-6 and parts["overload"] < 1e-6 and parts["sync"] < 1e-6)
+    margin = real and any(abs(parts[k] - 1e-6) < 1e-8 for k in ("late", "overload", "sync"))
+    if r[0] != "ok" or (bool(r[1]) != feas and not margin):
+        return f"VRPState.is_feasible() = {r[1:]} but unassigned {snap['unassigned']}, lateness {parts['late']}, overload {parts['overload']}, sync violation {parts['sync']}"
+    return None
 
 
 # ---------------------------------------------------------------- Coq terms
@@ -656,13 +1210,26 @@ def c_fop(rec):
     return f"FSyncAwareInsertion {clist(o['order'], cnat)} {ll(o['orders'])}"
 
 
+def coq_steps(out):
+    """the steps replayed through the models: all of them, except route_removal(n_routes=0) - the models guard
+    `rng.sample` answers to be non-empty; the call is the identity (checked here) and is skipped in the chain"""
+    steps = []
+    for s in out["steps"]:
+        if s["post"] is None:
+            continue
+        if s["op"] == "route_removal" and s["args"] and s["args"][0] == 0 and s["pre"] == s["post"]:
+            continue
+        steps.append(s)
+    return steps
+
+
 def c_ftrace_case(case, out):
-    steps = clist([s for s in out["steps"] if s["post"] is not None], lambda s: f"({c_fop(s)}, {c_state(s['post'])})")
+    steps = clist(coq_steps(out), lambda s: f"({c_fop(s)}, {c_state(s['post'])})")
     return f"({c_inst(case['inst'])}, {c_state(out['init'])}, {steps})"
 
 
 def c_trace_case(case, out):
-    steps = clist([s for s in out["steps"] if s["post"] is not None], lambda s: f"({c_op(s)}, {c_state(s['post'])})")
+    steps = clist(coq_steps(out), lambda s: f"({c_op(s)}, {c_state(s['post'])})")
     return f"({c_inst(case['inst'])}, {c_state(out['init'])}, {steps})"
 
 
@@ -699,19 +1266,26 @@ def shrink_seq(case):
     while changed and rounds < 40 and time.time() < deadline:
         changed = False
         rounds += 1
-        first = 0 if cur.get("from_empty") else 1
+        first = 0 if (cur.get("from_empty") or cur.get("start") == "state0") else 1
         for k in range(first, len(cur["plan"]) - 1):
             if time.time() > deadline:
                 break
             c = json.loads(json.dumps(cur))
             del c["plan"][k]
+            if c.get("rebuild_at"):
+                c["rebuild_at"] = sorted({r if r <= k else r - 1 for r in c["rebuild_at"]})
             if _seq_bad(c):
                 cur, changed = c, True
                 break
         if changed:
             continue
+        for key in ("twice", "twin"):  # drop the metamorphic re-runs if the plain run already fails
+            if cur.get(key) and not changed:
+                c = {**json.loads(json.dumps(cur)), key: False}
+                if _seq_bad(c):
+                    cur, changed = c, True
         n = len(cur["inst"]["customers"])
-        if n > 1 and time.time() < deadline:
+        if n > 1 and time.time() < deadline and cur.get("start") != "state0":
             c = json.loads(json.dumps(cur))
             c["inst"]["customers"].pop()  # ids stay 1..n-1
             if _seq_bad(c):
@@ -727,24 +1301,29 @@ def replay(obj):
     use_repo()
     kind = obj.get("kind")
     if kind == "vrp_seq" and "inst" in obj:
-        case = {"kind": "vrp_seq", "inst": obj["inst"], "weights": obj.get("weights", dict(DEFAULT_W)), "seed": obj.get("seed", 0),
-                "plan": obj["plan"], "from_empty": obj.get("from_empty", False)}
+        case = {**obj, "weights": obj.get("weights", dict(DEFAULT_W)), "seed": obj.get("seed", 0)}
         out = run_seq(case)
         print("instance:", json.dumps(case["inst"]))
-        print("from VRPState.from_problem, rng = Random(%d); operators:" % case["seed"])
+        start = case.get("start", "from_problem")
+        print({"from_problem": "state = VRPState.from_problem(customers, vehicles)",
+               "hand": "state = VRPState(customers=..., vehicles=..., routes=[[],..], arrival_times=[[],..], unassigned={all ids})  # no _dist",
+               "state0": f"state = VRPState(customers=..., vehicles=..., routes={case.get('state0', {}).get('routes')}, arrival_times=<recomputed>, "
+                         f"unassigned={case.get('state0', {}).get('unassigned')})  # no _dist"}[start]
+              + f"; rng = Random({case['seed']}); state re-built with the dataclass constructor before steps {case.get('rebuild_at') or []}; operators:")
         for s in out["steps"]:
-            print(f"  {s['op']}{tuple(s['args'])}: routes {s['pre']['routes']} unassigned {s['pre']['unassigned']} -> "
-                  + (f"routes {s['post']['routes']} unassigned {s['post']['unassigned']} arrival_times {s['post']['arrivals']} objective {s.get('obj')}"
+            print(f"  {s['op']}{tuple(s['args'])}: routes {_short(s['pre']['routes'])} unassigned {_short(s['pre']['unassigned'])} -> "
+                  + (f"routes {_short(s['post']['routes'])} unassigned {_short(s['post']['unassigned'])} arrival_times {_short(s['post']['arrivals'])} objective {s.get('obj')}"
                      if s["post"] else "no result"))
         print("oracle verdict:", out["bad"] or "ok")
         return 1 if out["bad"] else 0
     if kind == "vrp_solve" and "inst" in obj:
-        case = {"kind": "vrp_solve", "inst": obj["inst"], "weights": obj.get("weights", dict(DEFAULT_W)), "seed": obj.get("seed", 0),
+        case = {**obj, "weights": obj.get("weights", dict(DEFAULT_W)), "seed": obj.get("seed", 0),
                 "max_iter": obj.get("max_iter", 25), "max_no_improve": obj.get("max_no_improve", 500)}
         out = run_solve(case)
         print("instance:", json.dumps(case["inst"]))
-        print(f"solve_vrptw(customers, vehicles, depot, weights={case['weights']}, max_iter={case['max_iter']}, "
-              f"max_no_improve={case['max_no_improve']}, seed={case['seed']})")
+        print(f"solve_vrptw(customers [{case.get('container', 'list')} of {case.get('cust_forms') or 'Customer objects'}], vehicles "
+              f"[{case.get('vehicles_form', 'list')}], depot, weights={case['weights']}, max_iter={case['max_iter']}, "
+              f"max_no_improve={case['max_no_improve']}, seed={case['seed']}, on_progress={case.get('on_progress')})")
         print("result:", out["result"])
         print("oracle verdict:", out["bad"] or "ok")
         return 1 if out["bad"] else 0
@@ -778,74 +1357,142 @@ def _seq_nontrivial(out):
     return removed and placed_after
 
 
+SEQ_EVENTS = [
+    "insertion_cost: arrival re-derived (arrival list shorter than pos)", "insertion_cost: reads stale arrival times",
+    "insertion_cost: capacity reject", "insertion_cost: time-window reject", "regret: fewer than k options (regret 10000)",
+    "insertion: customer without feasible position", "sync_removal: falls back to random_removal", "sync_removal: target + neighbours",
+    "worst_removal: pops a customer already selected (visited by two vehicles)", "related_removal: runs out of candidates",
+    "route_removal: n_routes > non-empty routes", "removal: nothing assigned", "removal: strips a customer from two routes",
+    "sync_aware_insertion: multi-vehicle customer stays unassigned", "sync_aware_insertion: multi-vehicle customer placed on all its vehicles",
+    "greedy/regret: multi-vehicle customer placed on one route", "state: late arrivals", "state: overloaded vehicle",
+    "state: multi-vehicle customer misses vehicles", "state: multi-vehicle customer visited at different times",
+    "state: arrival exactly at tw_end",
+]
+SOLVE_EVENTS = ["alns: new best", "alns: better than current, not best", "alns: worse candidate accepted", "alns: equal candidate accepted",
+                "alns: candidate rejected", "alns: operator weights updated (iteration 100)", "alns: stops on max_no_improve",
+                "alns: stopped by on_progress"]
+
+
 def run_part(ctx: Ctx):
     big = ctx.tier == "thorough"
-    ctx.rule += (" | vrp: 3-7 customers (..9 thorough) on integer-distance layouts (collinear, 3-4-5 grids, co-located), time windows, "
-                 "service times, demands 0-6, 1-3 vehicles, capacities 1/3/8/20/inf, 30 % customers needing 2 (5 %: 3) vehicles; "
-                 "30 random exported operators per sequence from the solver's initial state, judged after every operator; "
-                 "solve_vrptw with max_iter <= 40 (120 thorough), random integer weights; non-trivial = a removal that "
-                 "removed customers is followed by an insertion that places some (sequence) / at least one ALNS iteration ran (solve)")
+    ctx.rule += (" | vrp: 0-7 customers (..9 thorough) on integer-distance layouts (collinear, 3-4-5 grids, co-located), time windows, "
+                 "service times, demands 0-6, 0-4 vehicles (ids as labels), capacities 1/3/8/20/inf, 30 % customers needing 2 (5 %: 3) "
+                 "vehicles, numbers fed as int / float / mixed; families: base (30 random exported operators from the solver's initial "
+                 "state, judged after every operator), corners (degree / n_routes / k sweeps incl. 0 and > size), hand (states built or "
+                 "re-built with the VRPState dataclass, no distance matrix; twin run from from_problem), state0 (random consistent "
+                 "hand-built states incl. overloaded / late ones), scaled (lengths x 2^20..2^36, demands x 2^31..2^40), real (decimal "
+                 "geometry, tolerance 1e-9, no Coq), size17/65/300 (line instances, fresh int objects for ids); solve_vrptw with max_iter "
+                 "0..40 (sweep 0..20, 99/100/101/205), call forms (tuples of length 3..8, tuple/list, vehicles int/list/tuple), "
+                 "on_progress, repeated calls; non-trivial = a removal that removed customers is followed by an insertion that places "
+                 "some (sequence) / at least one ALNS iteration ran (solve)")
+    rng = ctx.rng
     corpus = _corpus()
     seq_cases = [c for c in corpus if c["kind"] == "vrp_seq"] + [json.loads(json.dumps(c)) for c in FIXED]
     solve_cases = [c for c in corpus if c["kind"] == "vrp_solve"]
-    seq_cases += [gen_seq_case(ctx.rng, big) for _ in range(ctx.budget(130, 2500))]
-    solve_cases += [gen_solve_case(ctx.rng, big) for _ in range(ctx.budget(80, 1200))]
-    spec_budget = ctx.budget(2500, 20000)  # implementation states handed to the Coq checker spec_chk
+    for family, q, t in (("base", 60, 1500), ("corners", 20, 500), ("hand", 25, 400), ("state0", 25, 400), ("scaled", 12, 200),
+                         ("real", 12, 200)):
+        seq_cases += [gen_seq_case(rng, big, family) for _ in range(ctx.budget(q, t))]
+    for n, q, t in ((17, 2, 10), (65, 1, 4), (300, 1, 2)):
+        seq_cases += [gen_big_seq_case(rng, n) for _ in range(ctx.budget(q, t))]
+    for family, q, t in (("base", 40, 800), ("forms", 15, 150), ("progress", 10, 100), ("scaled", 8, 100), ("real", 6, 60)):
+        solve_cases += [gen_solve_case(rng, big, family) for _ in range(ctx.budget(q, t))]
+    solve_cases += gen_sweep_solves(rng, 20 if not big else 40)
+    spec_budget = ctx.budget(1500, 20000)  # implementation states handed to the Coq checker spec_chk
 
     seq_outs = pmap(run_seq, seq_cases)
     solve_outs = pmap(run_solve, solve_cases)
 
-    trace_terms, trace_meta, spec_terms, spec_meta, ftrace_terms = [], [], [], [], []
+    # class H: rare internal events - count them, and look for the ones not seen yet in families that favour them
+    seen = set()
+    for o in seq_outs + solve_outs:
+        seen |= set(o.get("events") or ())
+    for attempt in range(3):
+        miss_seq = [e for e in SEQ_EVENTS if e not in seen]
+        miss_solve = [e for e in SOLVE_EVENTS if e not in seen]
+        if not miss_seq and not miss_solve:
+            break
+        if miss_seq:
+            extra = [gen_seq_case(rng, big, rng.choice(["corners", "state0", "hand"])) for _ in range(120)]
+            for c, o in zip(extra, pmap(run_seq, extra)):
+                if o["bad"] or (set(o.get("events") or ()) - seen):
+                    seq_cases.append(c)
+                    seq_outs.append(o)
+                    seen |= set(o.get("events") or ())
+        if miss_solve:
+            extra = [gen_solve_case(rng, big, rng.choice(["base", "progress"])) for _ in range(60)]
+            for c, o in zip(extra, pmap(run_solve, extra)):
+                if o["bad"] or (set(o.get("events") or ()) - seen):
+                    solve_cases.append(c)
+                    solve_outs.append(o)
+                    seen |= set(o.get("events") or ())
+    for e in SEQ_EVENTS + SOLVE_EVENTS:
+        if e not in seen:
+            ctx.count("vrp_event_NOT_SEEN", e)
+
+    trace_terms, trace_meta, spec_terms, spec_meta, ftrace_terms, spec_cands = [], [], [], [], [], []
     n_viol = 0
     for case, out in zip(seq_cases, seq_outs):
         ctx.evaluations += len(out["steps"])
         inst = case["inst"]
+        ctx.count("vrp_family", case.get("family", "corpus/fixed"))
         ctx.count("vrp_customers", len(inst["customers"]))
         ctx.count("vrp_vehicles", len(inst["caps"]))
         ctx.count("vrp_multi_customers", sum(1 for c in inst["customers"] if c["required_vehicles"] > 1))
+        ctx.count("vrp_numbers", "real" if inst.get("real") else inst.get("num", "int"))
+        ctx.count("vrp_start", case.get("start", "from_problem") + ("+rebuilt" if case.get("rebuild_at") else ""))
         for cap in set(map(str, inst["caps"])):
-            ctx.count("vrp_capacity", cap)
-        if not out["dist_ok"]:
-            ctx.internal_errors.append(f"vrp: float distances are not the exact integers on instance {json.dumps(inst)}")
-            continue
+            ctx.count("vrp_capacity", cap if len(cap) < 6 else "huge")
+        for e in out.get("events") or ():
+            ctx.count("vrp_event", e)
         for s in out["steps"]:
             if s["post"] is None:
                 continue
             ctx.count("vrp_op", s["op"])
+            ctx.count("vrp_op_args", f"{s['op']}{tuple(s['args'])}")
             if s["op"] in REMOVALS:
-                ctx.count("vrp_removed_per_removal", len(set(s["post"]["unassigned"]) - set(s["pre"]["unassigned"])))
+                ctx.count("vrp_removed_per_removal", min(8, len(set(s["post"]["unassigned"]) - set(s["pre"]["unassigned"]))))
             else:
-                ctx.count("vrp_placed_per_insertion", len(set(s["pre"]["unassigned"]) - set(s["post"]["unassigned"])))
+                ctx.count("vrp_placed_per_insertion", min(8, len(set(s["pre"]["unassigned"]) - set(s["post"]["unassigned"]))))
             multi_on = [sum(1 for r in s["post"]["routes"] if c["id"] in r) for c in inst["customers"] if c["required_vehicles"] > 1]
             ctx.count("vrp_state_multi_on_routes", "some on >= 2 routes" if any(k >= 2 for k in multi_on)
                       else ("some on 1 route" if any(k == 1 for k in multi_on) else "none routed"))
-            ctx.count("vrp_state_unassigned", len(s["post"]["unassigned"]))
+            ctx.count("vrp_state_unassigned", min(8, len(s["post"]["unassigned"])))
         if out["bad"]:
             n_viol += 1
-            small = shrink_seq(case) if n_viol <= 2 else case
+            small = shrink_seq(case) if n_viol <= 2 and len(inst["customers"]) <= 20 else \
+                {**case, "plan": case["plan"][:max(1, len(out["steps"]))]}
             sout = run_seq(small)
             ctx.violation(f"vrp operator sequence: {sout['bad'] or out['bad']}",
-                          {**small, "impl_steps": [{k: s[k] for k in ("op", "args", "pre", "post")} for s in sout["steps"][-3:]]})
+                          {**small, "impl_steps": [{k: s[k] for k in ("op", "args", "pre", "post")} for s in sout["steps"][-3:]]
+                           if len(inst["customers"]) <= 20 else []})
         if _seq_nontrivial(out):
             ctx.nontriv(json.dumps(case, sort_keys=True))
-        ctx.sample({"kind": "vrp_seq", "inst": inst, "seed": case["seed"],
-                    "steps": [{"op": s["op"], "args": s["args"], "post": s["post"]} for s in out["steps"][:3]]}, 5)
+        if len(inst["customers"]) <= 9:
+            ctx.sample({"kind": "vrp_seq", "inst": inst, "seed": case["seed"], "start": case.get("start", "from_problem"),
+                        "steps": [{"op": s["op"], "args": s["args"], "post": s["post"]} for s in out["steps"][:3]]}, 5)
         good = [s for s in out["steps"] if s["post"] is not None]
-        if out["init"] is None or not all(snap_ok(s["post"]) for s in good):
+        if out["init"] is None or inst.get("real") or not case.get("coq", True) or not all(snap_ok(s["post"]) for s in good) \
+                or not snap_ok(out["init"]):
             continue
-        trace_terms.append(c_trace_case(case, out))
+        trace_terms.append((cbool(case.get("start") != "state0"), c_trace_case(case, out)))
         ftrace_terms.append(c_ftrace_case(case, out))
         trace_meta.append((case, out))
         ctx.traces_validated += 1
-        for s in good:
-            if isinstance(s.get("obj"), int) and len(spec_terms) < spec_budget:
-                spec_terms.append(c_spec_case(inst, case["weights"], s["post"], s["obj"]))
-                spec_meta.append((case, s))
+        spec_cands += [(case, s) for s in good if isinstance(s.get("obj"), int)]
 
+    for case, st in spec_cands[::max(1, len(spec_cands) // spec_budget)][:spec_budget]:  # evenly over all families
+        spec_terms.append(c_spec_case(case["inst"], case["weights"], st["post"], st["obj"]))
+        spec_meta.append((case, st))
     solve_terms, solve_meta = [], []
     for case, out in zip(solve_cases, solve_outs):
         ctx.evaluations += 1
+        ctx.count("vrp_solve_family", case.get("family", "corpus"))
         ctx.count("vrp_solve_max_iter", case["max_iter"])
+        ctx.count("vrp_solve_max_no_improve", case["max_no_improve"])
+        for e in out.get("events") or ():
+            ctx.count("vrp_event", e)
+        if case.get("cust_forms"):
+            ctx.count("vrp_solve_forms", f"{case.get('container')} / vehicles {case.get('vehicles_form')} / depot {case.get('depot_form')}")
         if out["result"]:
             it = out["result"]["iterations"]
             ctx.count("vrp_solve_iterations", it if it <= 3 else ("4-10" if it <= 10 else ("11-25" if it <= 25 else "26+")))
@@ -862,8 +1509,8 @@ def run_part(ctx: Ctx):
                           "the recorded call sequence cannot be replayed through the model",
                           {**case, "calls": [r["op"] for r in out["records"]]}, no_input=True)
             continue
-        if not (snap_ok(out["result"]["state"]) and isinstance(out["result"]["objective"], int)
-                and all(snap_ok(r["post"]) for r in out["records"])):
+        if case["inst"].get("real") or not (snap_ok(out["result"]["state"]) and isinstance(out["result"]["objective"], int)
+                                            and all(snap_ok(r["post"]) for r in out["records"])):
             continue
         solve_terms.append(c_solve_case(case, out))
         solve_meta.append((case, out))
@@ -871,12 +1518,25 @@ def run_part(ctx: Ctx):
         spec_terms.append(c_spec_case(case["inst"], case["weights"], out["result"]["state"], out["result"]["objective"]))
         spec_meta.append((case, {"op": "solve_vrptw", "post": out["result"]["state"], "obj": out["result"]["objective"]}))
 
-    f_trace = ctx.coq_check("vrp_trace", IMPORTS, "trace_case",
-                            "fun c => st_eqb (init_state (fst (fst c))) (snd (fst c)) && trace_chk c", trace_terms, shard=40)
-    f_choice = ctx.coq_check("vrp_choice", IMPORTS, "ftrace_case",
-                             "fun c => st_eqb (init_state (fst (fst c))) (snd (fst c)) && ftrace_chk c", ftrace_terms, shard=40)
+    # both models on every sequence in one lemma per shard (start = from_problem / empty hand-built state: the model's
+    # init_state; start = a given hand-built state: it must satisfy the Coq invariant checker); on a failure the two models
+    # are re-checked separately on the failing sequences to tell a bookkeeping difference from a choice difference
+    start_chk = ("(if fst c then st_eqb (init_state (fst (fst (snd c)))) (snd (fst (snd c))) "
+                 "else spec_check (fst (fst (snd c))) (snd (fst (snd c))))")
+    both = [f"({flag}, ({t}, {f}))" for (flag, t), f in zip(trace_terms, ftrace_terms)]
+    f_models = ctx.coq_check("vrp_models", IMPORTS, "bool * (trace_case * ftrace_case)",
+                             "fun c0 : bool * (trace_case * ftrace_case) => (let c : bool * trace_case := (fst c0, fst (snd c0)) in " + start_chk + ") && trace_chk (fst (snd c0)) && ftrace_chk (snd (snd c0))",
+                             both, shard=24)
+    f_trace, f_choice = [], []
+    if f_models:
+        sub = f_models[:40]
+        ft = ctx.coq_check("vrp_trace", IMPORTS, "bool * trace_case", "fun c : bool * trace_case => " + start_chk + " && trace_chk (snd c)",
+                           [f"({trace_terms[i][0]}, {trace_terms[i][1]})" for i in sub], shard=10)
+        fc = ctx.coq_check("vrp_choice", IMPORTS, "ftrace_case", "ftrace_chk", [ftrace_terms[i] for i in sub], shard=10)
+        f_trace = [sub[i] for i in ft]
+        f_choice = [sub[i] for i in fc]
     f_solve = ctx.coq_check("vrp_solve", IMPORTS, "solve_case", "solve_chk", solve_terms, shard=25)
-    f_spec = ctx.coq_check("vrp_spec", IMPORTS, "spec_case", "spec_chk", spec_terms, shard=400)
+    f_spec = ctx.coq_check("vrp_spec", IMPORTS, "spec_case", "spec_chk", spec_terms, shard=300 if len(spec_terms) <= 2400 else 400)
     for i in f_spec:
         case, s = spec_meta[i]
         ctx.violation("vrp: implementation state rejected by the Coq checker spec_chk (sound w.r.t. vrp_spec) although the "
@@ -887,11 +1547,12 @@ def run_part(ctx: Ctx):
         [("choice", trace_meta[i]) for i in f_choice if i not in set(f_trace)]
     if (disagree or ctx.broken) and not any(not v["no_input"] for v in ctx.violations):
         found = False
-        pool = [gen_seq_case(ctx.rng, True) for _ in range(3000)]
+        pool = [gen_seq_case(ctx.rng, True, ctx.rng.choice(["base", "corners", "hand", "state0", "scaled"])) for _ in range(3000)]
         for kind, (case, _o) in disagree[:10]:
             if kind in ("trace", "choice"):
                 for _ in range(60):  # neighbours: same instance, other seeds / plans
-                    pool.append({**json.loads(json.dumps(case)), "seed": ctx.rng.randrange(10**6), "plan": gen_plan(ctx.rng, 30)})
+                    pool.append({**json.loads(json.dumps(case)), "seed": ctx.rng.randrange(10**6),
+                                 "plan": gen_plan(ctx.rng, 30, corners=True, first=case.get("start") != "state0")})
         for case, out in zip(pool, pmap(run_seq, pool)):
             if out["bad"]:
                 small = shrink_seq(case)
@@ -901,7 +1562,7 @@ def run_part(ctx: Ctx):
                 found = True
                 break
         if not found:
-            spool = [gen_solve_case(ctx.rng, True) for _ in range(1500)]
+            spool = [gen_solve_case(ctx.rng, True, ctx.rng.choice(["base", "forms", "progress", "scaled"])) for _ in range(1500)]
             for case, out in zip(spool, pmap(run_solve, spool)):
                 if out["bad"]:
                     ctx.violation(f"vrp: {out['bad']}", {**case, "impl": out["result"]})
@@ -914,13 +1575,13 @@ def run_part(ctx: Ctx):
                     ctx.violation("correspondence lemma vrp_choice: the choice-computing model SV.C18.VrpChoice.apply_fop and the "
                                   "implementation's operator differ (which customers / positions are chosen: cost ranking, feasibility "
                                   "test, tie-break), while the bookkeeping model (vrp_trace) still agrees",
-                                  {**case, "step": k_bad, "impl_step": out["steps"][k_bad] if k_bad is not None else None,
+                                  {**case, "step": k_bad, "impl_step": coq_steps(out)[k_bad] if k_bad is not None else None,
                                    "model": model, "lemma": "Cases/C18/vrp_choice_*.v corr"}, no_input=True)
                 elif kind == "trace":
                     k_bad, model = _first_disagreeing_step(ctx, case, out)
                     ctx.violation("correspondence lemma vrp_trace: model SV.C18.Vrp.apply_op and the implementation's operator differ "
                                   "(observable: routes, unassigned, arrival_times after the operator; or a choice fails the model's guard)",
-                                  {**case, "step": k_bad, "impl_step": out["steps"][k_bad] if k_bad is not None else None,
+                                  {**case, "step": k_bad, "impl_step": coq_steps(out)[k_bad] if k_bad is not None else None,
                                    "model": model, "lemma": "Cases/C18/vrp_trace_*.v corr"}, no_input=True)
                 else:
                     model = ctx.coq_eval("vrp_solve_show", IMPORTS, _solve_show_term(case, out))
@@ -943,13 +1604,20 @@ def run_part(ctx: Ctx):
         "answers, the candidate index selected by rng.random()**2 in worst_removal (computed by the harness from the logged draw with "
         "the code's formula), iteration orders of the set `unassigned` (logged by a set subclass), n_remove of related_removal "
         "(taken as the number of customers actually removed)",
-        "vrp: sync_assignments is not modelled (nothing reads it); on_progress is not exercised in the VRP runs",
+        "vrp: sync_assignments is not modelled (nothing reads it); on_progress only cuts the list of iterations the model replays",
+        "vrp round-2 families: states built / re-built with the public VRPState dataclass (no _dist) must behave like from_problem "
+        "states (twin run) and obey the same oracle; operators must not modify the state they are given nor any state returned "
+        "earlier; same call twice gives the same answer; VRPState.total_distance / time_window_violation / capacity_violation / "
+        "sync_violation / vehicles_used / is_feasible are compared with the oracle's parts on every state; scaled instances keep all "
+        "quantities exact integers < 2^52 (generator rejects instances on which Python's own hypot is inexact); decimal-geometry "
+        "instances are judged with relative tolerance 1e-9 by the Python oracle only; route_removal(n_routes=0) is the identity and is "
+        "skipped in the Coq chains (the models require a non-empty rng.sample answer)",
         "vrp: alns acceptance answers are recovered from object identity (the next destroy operator received this candidate)",
     ]
 
 
 def _first_disagreeing_step(ctx, case, out, faithful=False):
-    good = [s for s in out["steps"] if s["post"] is not None]
+    good = coq_steps(out)
     prev = out["init"]
     for k, s in enumerate(good):
         ap = f"apply_fop {c_inst(case['inst'])} ({c_fop(s)})" if faithful else f"apply_op {c_inst(case['inst'])} ({c_op(s)})"
